@@ -334,7 +334,7 @@ impl SourceView {
             self.processed_until.load(Ordering::Relaxed),
             lines
                 .iter()
-                .map(|l| (l.as_ptr() as usize - base, l.len()))
+                .map(|l| ((l.as_ptr() as usize).wrapping_sub(base), l.len()))
                 .collect(),
         )
     }
